@@ -869,6 +869,7 @@ def do_observe(p, keep):
     keep.append((det, pipe, readout))
     before = _snap_many(detector=det, pipeline=pipe, readout=readout)
     out = {"before": snap_list(before), "calls": []}
+    prev_obs = None
     for call in p.get("calls") or []:
         mode = call.get("mode", "product")
         plist = [(q["key"], list(q["values"])) for q in call.get("parameters") or []]
@@ -886,9 +887,13 @@ def do_observe(p, keep):
                 pvs = [ParameterValues(key=k, values=copy.deepcopy(v)) for k, v in plist]
             if seed is not None:
                 kw["pipeline_seed"] = int(seed)
-            obs = Observation(
-                parameters=pvs,
-                readout=readout, mode=mode, with_dask=bool(call.get("with_dask")), outputs=None, **kw)
+            if call.get("same_mode_object") and prev_obs is not None:
+                obs = prev_obs           # the user runs the very same Observation object once more
+            else:
+                obs = Observation(
+                    parameters=pvs,
+                    readout=readout, mode=mode, with_dask=bool(call.get("with_dask")), outputs=None, **kw)
+            prev_obs = obs
             if call.get("ambient") is not None:
                 np.random.seed(int(call["ambient"]))      # the state of the global generator when the user calls
             sched = call.get("scheduler") or "synchronous"
